@@ -115,7 +115,16 @@ func (r *rewriter) rewriteCall(c *astutil.Cursor, ce *ast.CallExpr, deferred boo
 	}
 	if s := r.info.Selections[se]; s != nil && s.Kind() == types.MethodVal {
 		recvT := s.Recv()
-		if idx := s.Index(); len(idx) > 1 {
+		promotedSync := false
+		if fn, isFn := s.Obj().(*types.Func); isFn {
+			if sig, isSig := fn.Type().(*types.Signature); isSig && sig.Recv() != nil {
+				switch p, _, _ := namedOf(sig.Recv().Type()); p {
+				case "sync", "sync/atomic", "go.uber.org/atomic":
+					promotedSync = true
+				}
+			}
+		}
+		if idx := s.Index(); len(idx) > 1 && promotedSync {
 			// promoted method of an embedded field (e.g. a struct that embeds sync.Mutex and
 			// calls x.Lock()): make the field path explicit, x.Lock() -> x.Mutex.Lock(), so that
 			// the rewrite below sees the real receiver
